@@ -178,22 +178,26 @@ class RegionView:
         self.cache[key] = val
         return val
 
-    def project(self, events):
+    def project(self, events, drop_local_gates=False, with_events=False):
         """-> list of schema entries (tuples) live in this region"""
         out = []
         for ev in events:
             live = True
             gates = []
-            for key, pol in ev.guards:
+            for g in ev.guards:
+                key, pol = g[0], g[1]
+                local = g[2] if len(g) > 2 else False
                 v = self.guard_value(key)
                 if v is None:
-                    gates.append((key, pol))
+                    if not (drop_local_gates and local):
+                        gates.append((key, pol))
                 elif v != pol:
                     live = False
                     break
             if not live:
                 continue
-            out.append(entry(ev, gates))
+            e = entry(ev, gates)
+            out.append((e, ev) if with_events else e)
         return out
 
 
